@@ -86,6 +86,9 @@ class HistoryRun(object):
       self.stats["ok"] += 1
       self.stats["stored_actions"] += len(res.stored)
       self.gen.past.append((res.raw_stored, res.raw_undo))
+      if len(self.gen.past) > 3 and self.gen.past[0][1]:
+        self.gen.old_undos.append(self.gen.past[0][1])
+        self.gen.old_undos = self.gen.old_undos[-4:]
       self.gen.past = self.gen.past[-3:]
       after = doc.snapshot()
       rec["after"] = after
@@ -379,6 +382,9 @@ def classify_failed(rec, fault, doc):
             "(the restored schema gets a fresh column object)" % pre[-1][1][0])
   in_rb = False
   for st in steps:
+    if in_rb and st[0] == "doc" and st[3] == "raised" and pre and pre[-1][3] == "raised":
+      return ("rollback aborted: the %s doc action failed after recording part of its undo, and replaying that "
+              "undo (%s) raises" % (pre[-1][1][0], st[1][0]))
     if st[0] == "rollback":
       in_rb = True
     elif st[0] == "rollback-done":
